@@ -71,7 +71,7 @@ def _binfo():
 
 
 def gen_cases(tier, seed):
-    nb, ns = (104, 24) if tier == "quick" else (1400, 200)
+    nb, ns = (104, 24) if tier == "quick" else (1100, 160)
     cases = [{"kind": "batch", "seed": [int(seed), i], "count": 25, "tier": tier, "long": False} for i in range(nb)]
     cases += [{"kind": "batch", "seed": [int(seed), 100000 + i], "count": 1, "tier": tier, "long": True} for i in range(ns)]
     # interleave so that every shard gets singles and batches
